@@ -90,8 +90,27 @@ Theorem check_enforces_conditions : forall fixed rec sc t types vals inst st,
 Proof. exact check_decides. Qed.
 Print Assumptions check_enforces_conditions.
 
+(* the six comparisons are Python's own relations: on sets they are inclusion tests — a PARTIAL order, where >= is its own
+   relation and not the negation of < (both are false for sets none of which contains the other); on totally ordered operands
+   (numbers with numbers, strings with strings) >= does coincide with "not <" *)
+Theorem m_ge_on_sets_is_superset : forall i f a j g b, m_compare "g" (VSet i f a) (VSet j g b) = Ok (set_subset b a).
+Proof. exact m_ge_sets_lemma. Qed.
+Print Assumptions m_ge_on_sets_is_superset.
+Theorem m_le_on_sets_is_subset : forall i f a j g b, m_compare "l" (VSet i f a) (VSet j g b) = Ok (set_subset a b).
+Proof. exact m_le_sets_lemma. Qed.
+Print Assumptions m_le_on_sets_is_subset.
+Theorem m_ge_is_not_lt_on_total_orders : forall a b x, m_compare "<" a b = Ok x ->
+  (match a, b with VSet _ _ _, VSet _ _ _ => False | _, _ => True end) -> m_compare "g" a b = Ok (negb x).
+Proof. exact m_ge_total_lemma. Qed.
+Print Assumptions m_ge_is_not_lt_on_total_orders.
+
 (* non-vacuity *)
 Example ex_or : fst (glom_top true [] (VInt 0) (SOr [SM; SVal VNone] None)) = Ok VNone.
 Proof. vm_compute. reflexivity. Qed.
 Example ex_and_default : fst (glom_top true [] (VInt 1) (SAnd [SAnd [SMExpr SM ">" (SLit (VInt 5))] (Some (SLit (VInt 7))); SMatch (SType TyInt) None] None)) = Ok (VInt 1).
 Proof. vm_compute. reflexivity. Qed.
+Example ex_sets_unordered :
+  m_compare "g" (VSet 0 false [VInt 1; VInt 2]) (VSet 0 false [VInt 3]) = Ok false /\
+  m_compare "<" (VSet 0 false [VInt 1; VInt 2]) (VSet 0 false [VInt 3]) = Ok false /\
+  fst (glom_top true [] (VSet 1 false [VInt 1; VInt 2]) (SMExpr SM "g" (SLit (VSet 0 false [VInt 3])))) = Raise (simple_exn "MatchError").
+Proof. vm_compute. repeat split. Qed.
